@@ -2,7 +2,8 @@
 standard argument signature, built through the public macrospec API."""
 from . import doc as D
 
-SLOT_KINDS = ['*', '[', '{', 'm', 'o', 's', 't+', 'r()', 'd<>', 'v', 'v||', 't~', 't&']
+SLOT_KINDS = ['*', '[', '{', 'm', 'o', 's', 't+', 'r()', 'd<>', 'v', 'v||', 't~', 't&',
+              'AnyDelimited', 'AnyDelimitedOptional', 'e{^_}']
 ENV_SLOT_KINDS = ['*', '[', '{', 'm', 'o', 's', 'd<>', 'r()', 't+', 't~']
 
 
